@@ -97,7 +97,7 @@ void bn_rec_win(uint8_t *win, size_t *len, const bn_t k, size_t w) {
 
 	l = bn_bits(k);
 
-	if (*len < RLC_CEIL(l, w)) {
+	if (l > 0 && *len < RLC_CEIL(l, w)) {
 		*len = 0;
 		RLC_THROW(ERR_NO_BUFFER);
 		return;
